@@ -125,6 +125,7 @@ static bool setting_chars_ok(const std::string &s) {
 }
 
 bool is_curated_malformed(const std::string &setting);   // gen.cc
+void deny_reset();                                        // stubs.cc
 // Numeric parameter fields as crypt(5) documents them: "rounds=" of $5$/$6$/$md5 is an unsigned decimal number,
 // the bcrypt cost is exactly two decimal digits.  Anything else in such a field is a malformed parameter,
 // which the statement lists as a must-fail class.  (sha1crypt's iteration field is deliberately not judged:
@@ -403,7 +404,9 @@ static std::string objkey(const J &op) {
 static void sig_add(Run &r, const std::string &s) { r.hist_sig = fnv1a(s, r.hist_sig); r.hist_sig = fnv1a("|", 1, r.hist_sig); }
 
 static void record_result(Run &r, int t, int i, const std::string &text) {
-  r.results.push_back(vfmt("t%d.%d %s", t, i, text.c_str()));
+  // the transcript compared by C07's double run carries outcomes only (errno is not part of that property)
+  size_t e = text.find(" errno=");
+  r.results.push_back(vfmt("t%d.%d %s", t, i, text.substr(0, e).c_str()));
   ev(vfmt("ret t%d op%d %s", t, i, text.c_str()));
 }
 
@@ -835,10 +838,18 @@ static void exec_gensalt(Run &r, int t, int i, const J &op) {
   if (fv.effective > 0) { exp_fail = true; have_exp = true; }
   else if (!rb.null) { exp = RefClient::get().gensalt(prefix, count, rb, nrb, osz); have_exp = true; }
   else if (draws.empty()) { exp_fail = true; have_exp = true; }   // auto-entropy requested, nothing drawn: only failure is legitimate
-  else { exp = RefClient::get().gensalt(prefix, count, Bytes(draws.back().bytes), (int)draws.back().bytes.size(), osz); have_exp = true; }
+  else if (draws.size() == 1) { exp = RefClient::get().gensalt(prefix, count, Bytes(draws.back().bytes), (int)draws.back().bytes.size(), osz); have_exp = true; }
+  else {
+    // several complete draws in one call: legal (the statement only says where the bytes come from).  The salt must
+    // then be derived from one of them or from their concatenation; otherwise we have no expectation.
+    std::string cat; for (auto &d : draws) cat += d.bytes;
+    std::vector<std::string> cands{cat}; for (auto &d : draws) cands.push_back(d.bytes);
+    stat("incidental_multiple_entropy_draws_in_one_call");
+    for (auto &cnd : cands) { RefOut e2 = RefClient::get().gensalt(prefix, count, Bytes(cnd), (int)cnd.size(), osz); if (e2.bad) crash_exit("machinery", "refsrv"); if (e2.ok == !failed && (failed || e2.str == res)) { exp = e2; have_exp = true; break; } }
+  }
   if (have_exp && !exp_fail) { if (exp.bad) crash_exit("machinery", ("refsrv: " + exp.raw).c_str()); exp_fail = !exp.ok; }
 
-  if (r.o_ref || r.o_c12 || r.o_c15 || r.o_c14) {
+  if ((r.o_ref || r.o_c12 || r.o_c15 || r.o_c14) && have_exp) {
     if (exp_fail != failed) {
       if (rb.null && draws.empty() && !failed)
         violation(nullptr, "salt-without-os-entropy", t, i, vfmt("%s(rbytes=NULL) returned \"%s\" without drawing from the OS entropy source", kind.c_str(), res.c_str()));
@@ -852,8 +863,6 @@ static void exec_gensalt(Run &r, int t, int i, const J &op) {
   if (rb.null && r.o_c12) {
     stat("probe_auto_entropy_calls");
     if (!failed) {
-      if (draws.size() != 1)
-        violation(nullptr, "entropy-draws", t, i, vfmt("%s(rbytes=NULL) drew from the OS %zu times for one salt", kind.c_str(), draws.size()));
       const HashConf *hc = prefix.null ? nullptr : conf_for_prefix(prefix.b);
       if (hc && !draws.empty() && (int)draws.back().bytes.size() < hc->nrbytes)
         violation(nullptr, "entropy-draws", t, i, vfmt("%s drew %zu bytes for %s; hashes.conf says %d", kind.c_str(), draws.back().bytes.size(), hc->name.c_str(), hc->nrbytes));
@@ -1121,6 +1130,7 @@ struct RunOut { J result; std::vector<std::string> transcript; };
 static RunOut run_plan(const J &plan, uint64_t fill_override, bool use_override) {
   Run r; g_run = &r;
   libstate_restore();
+  deny_reset();
   r.plan = plan;
   g_prop = plan.str("property");
   g_viol = Violation(); g_viol_extra = 0; g_trace_hash = 0xcbf29ce484222325ULL; g_events = 0; g_event_text.clear(); g_stats.clear();
